@@ -61,9 +61,15 @@
 //  not permuted / initialised -1; eps and delta swapped; D of length n+1, Dinv of length sumLnz, L as (n, n+1); sum over etree (loop invariant);
 //  zeroed AtoPAPt; refactor: Result ignored (`let _ =` + Ok(())), is_symbolic = true; accessors returning the wrong field; _invperm `<=` / duplicates
 //  accepted; permute reading b[0].
-//  SURVIVOR (1): refactor passing the literal `true` as `logical` to _factor (a symbolic refactorisation behind is_symbolic == false).  Nothing in
+//  FORMER SURVIVOR (now caught, see FOLLOW-UP below): refactor passing the literal `true` as `logical` to _factor (a symbolic refactorisation behind is_symbolic == false).  Nothing in
 //  _factor's contract (unit qdldl_factor) distinguishes a numeric from a logical run that returns Ok -- floats are uninterpreted and no clause such as
 //  `!logical && Ok ==> Dinv[k] == f_recip(D[k])` is stated there.  Open item for unit qdldl_factor (provable in _factor_inner's column loop).
+// FOLLOW-UP (qdldl_factor strengthened): the stand-in of _factor carries the new clauses verbatim (numeric + Ok: pivots_ok and exists pre. reg_ok;
+//  logical: Ok, placeholders 1, counters 0; vocabulary pivots_ok / pos_cnt / reg_ok / reg_val / reg_cnt / perturbed / f_from_i8 copied, proved in
+//  qdldl_factor).  They are lifted to the public API: numeric_ok(f) on Ok of `refactor` and of a numeric `new` / `_qdldl_new`, logical_ok(f) for a
+//  logical one (which cannot fail for a valid ordering); positive_inertia() == pos_cnt(D, n) and regularize_count() == reg_cnt(pre, ..) under numeric_ok.
+//  Re-run mutations: refactor passing literal `true` -> postcondition `r is Ok ==> numeric_ok` fails; positive_inertia() returning regularize_count
+//  -> postcondition fails; _qdldl_new passing `!opts.logical` -> postconditions fail.
 use vstd::prelude::*;
 use vstd::set_lib::*;
 verus! {
@@ -160,6 +166,35 @@ pub open spec fn ws_static_same(w0: QDLDLWorkspace<F>, w1: QDLDLWorkspace<F>) ->
         && w1.regularize_enable == w0.regularize_enable && w1.regularize_eps == w0.regularize_eps && w1.regularize_delta == w0.regularize_delta
 }
 
+// ---- the pivots of a numeric factorisation: vocabulary of unit qdldl_factor, copied verbatim (the clauses stated in it are PROVED in qdldl_factor)
+pub uninterp spec fn f_from_i8(a: i8) -> F;
+// the signed pivot p falls below the regularisation threshold
+pub open spec fn perturbed(p: F, s: i8, enable: bool, eps: F) -> bool { enable && f_lt(f_mul(p, f_from_i8(s)), eps) }
+// the regularisation rule: a perturbed pivot is replaced by delta * sign, every other pivot is kept
+pub open spec fn reg_val(p: F, s: i8, enable: bool, eps: F, delta: F) -> F { if perturbed(p, s, enable, eps) { f_mul(delta, f_from_i8(s)) } else { p } }
+// number of positive pivots among the first k
+pub open spec fn pos_cnt(d: Seq<F>, k: int) -> int
+    decreases k
+{
+    if k <= 0 { 0 } else { pos_cnt(d, k - 1) + (if f_lt(f_zero(), d[k - 1]) { 1int } else { 0int }) }
+}
+// number of perturbed pivots among the first k
+pub open spec fn reg_cnt(pre: Seq<F>, ds: Seq<i8>, enable: bool, eps: F, k: int) -> int
+    decreases k
+{
+    if k <= 0 { 0 } else { reg_cnt(pre, ds, enable, eps, k - 1) + (if perturbed(pre[k - 1], ds[k - 1], enable, eps) { 1int } else { 0int }) }
+}
+// the first k pivots passed the zero test, Dinv holds their reciprocals, count = number of positive ones
+pub open spec fn pivots_ok(k: int, d: Seq<F>, dinv: Seq<F>, count: int) -> bool {
+    &&& forall|j: int| 0 <= j < k ==> #[trigger] dinv[j] == f_recip(d[j])
+    &&& forall|j: int| 0 <= j < k ==> !f_eq(#[trigger] d[j], f_zero())
+    &&& count == pos_cnt(d, k)
+}
+// pre = the pivots as computed, before the regularisation step: D is pre with exactly the perturbed ones replaced, regcount counts them
+pub open spec fn reg_ok(k: int, pre: Seq<F>, d: Seq<F>, ds: Seq<i8>, enable: bool, eps: F, delta: F, regcount: int) -> bool {
+    &&& forall|j: int| 0 <= j < k ==> #[trigger] d[j] == reg_val(pre[j], ds[j], enable, eps, delta)
+    &&& regcount == reg_cnt(pre, ds, enable, eps, k)
+}
 // ---- ASSUMED here, PROVED in unit qdldl_factor (contract text verbatim) ----
 impl QDLDLWorkspace<F> {
     #[verifier::external_body]
@@ -196,6 +231,16 @@ fn _factor(L: &mut CscMatrix<F>, D: &mut [F], Dinv: &mut [F], workspace: &mut QD
         // C12: a factorisation that reports success has filled every column of L completely with rows strictly below the diagonal and
         // inside the matrix: l_wf and l_strict (folded in l_complete) are exactly what QDLDLFactorisation::solve / _solve require
         r is Ok && old(workspace).triuA.n > 0 ==> l_complete(old(workspace).triuA.n as int, final(L).colptr@, final(L).rowval@, final(L).nzval@),
+        // C12, numeric mode and Ok: no zero pivot, Dinv = 1/D entry by entry, the recorded positive inertia is the number of positive pivots,
+        // pivots are perturbed exactly when their signed value is below the threshold and regularize_count counts them (see _factor_inner)
+        !logical && r is Ok ==> pivots_ok(old(workspace).triuA.n as int, final(D)@, final(Dinv)@, final(workspace).positive_inertia as int)
+            && exists|pre: Seq<F>| pre.len() == old(workspace).triuA.n
+                && #[trigger] reg_ok(old(workspace).triuA.n as int, pre, final(D)@, old(workspace).Dsigns@, old(workspace).regularize_enable,
+                    old(workspace).regularize_eps, old(workspace).regularize_delta, final(workspace).regularize_count as int),
+        // logical mode: always Ok, every numeric entry of L and Dinv is the placeholder 1, nothing is counted
+        logical ==> r is Ok && final(workspace).positive_inertia == 0 && final(workspace).regularize_count == 0
+            && (forall|k: int| 0 <= k < final(Dinv)@.len() ==> #[trigger] final(Dinv)@[k] == f_one())
+            && (forall|j: int| 0 <= j < final(L).nzval@.len() ==> #[trigger] final(L).nzval@[j] == f_one()),
 { unimplemented!() }
 
 // =====================================================================================================================
@@ -636,6 +681,39 @@ pub open spec fn fact_ok(f: QDLDLFactorisation<F>) -> bool {
     &&& f.D@.len() == n && f.Dinv@.len() == n
     &&& perms_inverse(f.perm@, f.iperm@, n as int)
 }
+// C12 at the public API: the object holds a completed NUMERIC factorisation -- no zero pivot, Dinv = 1/D entry by entry, the reported positive
+// inertia is the number of positive pivots, pivots were perturbed exactly when their signed value fell below the threshold (to delta * sign) and
+// the reported regularisation count is the number of perturbed pivots (pre = the pivots as computed, before the regularisation step)
+#[verifier::opaque]
+pub open spec fn numeric_ok(f: QDLDLFactorisation<F>) -> bool {
+    let n = f.workspace.triuA.n as int;
+    &&& pivots_ok(n, f.D@, f.Dinv@, f.workspace.positive_inertia as int)
+    &&& exists|pre: Seq<F>| pre.len() == n
+            && #[trigger] reg_ok(n, pre, f.D@, f.workspace.Dsigns@, f.workspace.regularize_enable, f.workspace.regularize_eps, f.workspace.regularize_delta,
+                f.workspace.regularize_count as int)
+}
+// a logical (symbolic-only) factorisation: placeholders 1 in L and Dinv, nothing counted
+#[verifier::opaque]
+pub open spec fn logical_ok(f: QDLDLFactorisation<F>) -> bool {
+    &&& f.workspace.positive_inertia == 0 && f.workspace.regularize_count == 0
+    &&& forall|k: int| 0 <= k < f.Dinv@.len() ==> #[trigger] f.Dinv@[k] == f_one()
+    &&& forall|j: int| 0 <= j < f.L.nzval@.len() ==> #[trigger] f.L.nzval@[j] == f_one()
+}
+// (both are kept folded in the function bodies; these two lemmas fold what _factor's contract delivers)
+pub proof fn lemma_numeric_intro(f: QDLDLFactorisation<F>, pre: Seq<F>)
+    requires
+        pivots_ok(f.workspace.triuA.n as int, f.D@, f.Dinv@, f.workspace.positive_inertia as int), pre.len() == f.workspace.triuA.n,
+        reg_ok(f.workspace.triuA.n as int, pre, f.D@, f.workspace.Dsigns@, f.workspace.regularize_enable, f.workspace.regularize_eps, f.workspace.regularize_delta,
+            f.workspace.regularize_count as int),
+    ensures numeric_ok(f),
+{ reveal(numeric_ok); }
+pub proof fn lemma_logical_intro(f: QDLDLFactorisation<F>)
+    requires
+        f.workspace.positive_inertia == 0, f.workspace.regularize_count == 0,
+        forall|k: int| 0 <= k < f.Dinv@.len() ==> #[trigger] f.Dinv@[k] == f_one(),
+        forall|j: int| 0 <= j < f.L.nzval@.len() ==> #[trigger] f.L.nzval@[j] == f_one(),
+    ensures logical_ok(f),
+{ reveal(logical_ok); }
 // the copy that is factored is the symmetric permutation of Ain by ip (entry k -> slot map[k], column max(ip r, ip c), row min(ip r, ip c), same value)
 #[verifier::opaque]
 pub open spec fn is_sym_perm_of(A: CscMatrix<F>, ip: Seq<usize>, P: CscMatrix<F>, map: Seq<usize>) -> bool {
@@ -662,6 +740,8 @@ pub open spec fn qf_built(f: QDLDLFactorisation<F>, Ain: CscMatrix<F>, o: Option
     &&& dsigns_of(o, f.perm@, f.workspace.Dsigns@)
     &&& f.workspace.regularize_enable == opt_reg_enable(o) && f.workspace.regularize_eps == opt_reg_eps(o) && f.workspace.regularize_delta == opt_reg_delta(o)
     &&& f.workspace.regularize_count <= n && f.workspace.positive_inertia <= n
+    // numeric construction: the pivot / inertia / regularisation facts; logical construction: placeholders only (and never an error)
+    &&& (!opt_logical(o) ==> numeric_ok(f)) && (opt_logical(o) ==> logical_ok(f))
 }
 // composition with unit qdldl_kernels: a successfully constructed / refactored object satisfies the precondition of `QDLDLFactorisation::solve`
 // as stated there (l_wf of the factor, lengths of Dinv / fwork / perm, perm in range), and the hypotheses of its functional clause
@@ -697,6 +777,8 @@ pub open spec fn bad_perm(o: Option<QDLDLSettings<F>>) -> bool { opt_perm(o) mat
         // the only other error is a zero pivot, and only a numeric factorisation reports one
         r matches Err(e) ==> e == QDLDLError::InvalidPermutation || (e == QDLDLError::ZeroPivot && !opt_logical(opts)),
         r matches Ok(f) ==> qf_built(f, *Ain, opts),
+        // a logical factorisation with a valid ordering cannot fail
+        opt_logical(opts) && !bad_perm(opts) ==> r is Ok,
 //@pre
     let ghost gn = Ain.n as int;
     let ghost o0 = opts;
@@ -726,6 +808,21 @@ pub open spec fn bad_perm(o: Option<QDLDLSettings<F>>) -> bool { opt_perm(o) mat
         lemma_psum_bound(workspace.Lnz@, gn, gn);
     }
     let ghost lnz = workspace.Lnz@;
+//@before "_factor(&mut L, &mut D, &mut Dinv, &mut workspace"
+    let ghost ws0 = workspace;
+//@after "_factor(&mut L, &mut D, &mut Dinv, &mut workspace"
+    proof {
+        // fold the numeric / logical facts of _factor's contract over the object that is about to be returned (ws_static_same: Dsigns and the
+        // regularisation parameters of the final workspace are those the factorisation ran with)
+        let fg = QDLDLFactorisation::<F> { perm: perm, iperm: iperm, L: L, D: D, Dinv: Dinv, workspace: workspace, is_symbolic: opts.logical };
+        if !opts.logical {
+            let pre = choose|pre: Seq<F>| pre.len() == ws0.triuA.n
+                && #[trigger] reg_ok(ws0.triuA.n as int, pre, D@, ws0.Dsigns@, ws0.regularize_enable, ws0.regularize_eps, ws0.regularize_delta, workspace.regularize_count as int);
+            lemma_numeric_intro(fg, pre);
+        } else {
+            lemma_logical_intro(fg);
+        }
+    }
 //@iter 1
 it
 //@loop 1
@@ -770,17 +867,39 @@ impl QDLDLFactorisation<F> {
         // whose L is then what the triangular solves require; the only error is a zero pivot
         r is Ok && old(self).workspace.triuA.n > 0 ==> l_complete(old(self).workspace.triuA.n as int, final(self).L.colptr@, final(self).L.rowval@, final(self).L.nzval@),
         r is Ok ==> final(self).workspace.positive_inertia <= old(self).workspace.triuA.n,
+        // C12: ... and it IS a numeric factorisation: Dinv = 1/D, no zero pivot, inertia = number of positive pivots, the regularisation rule
+        r is Ok ==> numeric_ok(*final(self)),
         r matches Err(e) ==> e == QDLDLError::ZeroPivot,
         final(self).workspace.regularize_count <= old(self).workspace.triuA.n,
+//@pre
+        let ghost ws0 = self.workspace;
+//@post
+        proof {
+            if r_v is Ok {
+                let pre = choose|pre: Seq<F>| pre.len() == ws0.triuA.n
+                    && #[trigger] reg_ok(ws0.triuA.n as int, pre, self.D@, ws0.Dsigns@, ws0.regularize_enable, ws0.regularize_eps, ws0.regularize_delta, self.workspace.regularize_count as int);
+                lemma_numeric_intro(*self, pre);
+            }
+        }
 //@end
 
 //@fn file=src/qdldl/qdldl.rs in="impl<T> QDLDLFactorisation<T>" name=positive_inertia rules=R1 ret=r
 //@contract
     ensures r == self.workspace.positive_inertia,
+        // C12: "the reported positive inertia equals the number of positive pivots" (for an object holding a numeric factorisation)
+        numeric_ok(*self) ==> r == pos_cnt(self.D@, self.workspace.triuA.n as int),
+//@pre
+        proof { reveal(numeric_ok); }
 //@end
 //@fn file=src/qdldl/qdldl.rs in="impl<T> QDLDLFactorisation<T>" name=regularize_count rules=R1 ret=r
 //@contract
     ensures r == self.workspace.regularize_count,
+        // C12: the reported count is the number of pivots that fell below the threshold (pre = the pivots before the regularisation step)
+        numeric_ok(*self) ==> exists|pre: Seq<F>| pre.len() == self.workspace.triuA.n
+            && #[trigger] reg_ok(self.workspace.triuA.n as int, pre, self.D@, self.workspace.Dsigns@, self.workspace.regularize_enable, self.workspace.regularize_eps,
+                self.workspace.regularize_delta, r as int),
+//@pre
+        proof { reveal(numeric_ok); }
 //@end
 //@fn file=src/qdldl/qdldl.rs in="impl<T> QDLDLFactorisation<T>" name=nnzA rules=R1 ret=r
 //@contract
